@@ -38,6 +38,7 @@ def step (st : St) (line : String) : St × String :=
   match (line.trimAscii.toString.splitOn " ").filter (· ≠ "") with
   | "c20" :: rest => (st, C20.handle rest)
   | "c04" :: rest => (st, C04.handle rest)
+  | "c04m" :: rest => (st, C04.handleM st.c03 rest)
   | "c05" :: rest => (st, C05.handleAll rest)
   | "c06" :: rest => (st, C05.handle06 rest)
   | "c18" :: rest => (st, C18.handle rest)
